@@ -64,7 +64,7 @@ def reqOf (a : Adapter) (method : Option Str) (ws : Option Bool) : Req :=
 /-- `MapAdapter.match(path_info, method, query_args=qa, websocket=ws)` -/
 def matchAdapter (m : RMap) (a : Adapter) (pathInfo : Str) (method : Option Str) (qa : QueryArgs)
     (ws : Option Bool) : Outcome :=
-  let qa := match qa with | .none => a.queryArgs | q => q
+  let qa := effQa a qa
   let q := reqOf a method ws
   let domainPart := domainPartOf m.cfg a
   let pp := pathPart pathInfo
